@@ -312,6 +312,10 @@ def multiprocessing_run(
             result = study_function(this_run_dir, *args, **kwargs)
 
         if not failed_run:
+            # Save key data to disk first: the success marker below must never exist without its result file, otherwise
+            #    a restart of an interrupted study would try to load results that were never written.
+            np.savez(os.path.join(this_run_dir, f'mp_results.npz'), **result)
+
             # Save something to disk to mark that this was completed successfully
             success_text = f'  Run: {this_run_num} completed successfully. ' \
                            f'Taking {time.time() - run_time_init:0.2f} seconds.\n'
@@ -320,9 +324,6 @@ def multiprocessing_run(
 
             with open(mp_log_path, 'a') as mp_file:
                 mp_file.write(success_text)
-
-            # Save key data to disk
-            np.savez(os.path.join(this_run_dir, f'mp_results.npz'), **result)
 
         return MultiprocessingOutput(case_number=this_run_num, input_index=run_indicies, result=result)
 
